@@ -418,8 +418,19 @@ func VerifC07StateHandlers() {
 		return
 	}
 	vassert(addErr == nil && e1 == nil && e2 == nil && cerr == nil, "a state handler of the node's own type is accepted: handler "+desc)
-	out, rerr := r.Invoke(ctx, c07A{X: 5})
-	vassert(rerr == nil && out.X == 5, "a graph with accepted state handlers runs")
+	var out c07A
+	var rerr error
+	if vchoose("stream", 2) == 1 {
+		sr, e := r.Stream(ctx, c07A{X: 5})
+		rerr = e
+		if e == nil {
+			out, rerr = sr.Recv()
+			sr.Close()
+		}
+	} else {
+		out, rerr = r.Invoke(ctx, c07A{X: 5})
+	}
+	vassert(rerr == nil && out.X == 5, "a graph with accepted state handlers runs, in Invoke and in Stream")
 }
 
 // A pass-through directly behind START in a graph whose input and output types differ (string / int): it carries the
